@@ -19,6 +19,7 @@ check must stay silent (exit 0, no ANALYSIS-ERROR) on every transformed tree.
   extractvar  : y = f(g(a), b)  ->  t1_ = g(a); y = f(t1_, b)
   docadd      : every function / class without a docstring gets one
   docstrip    : every docstring is removed
+  combo       : rename, flipcmp, invertif, noelse, splitchain, extractvar, augassign, docadd in sequence
   shift       : three comment lines are inserted at the top of every module (line keys)
 
 usage: generic.py [transform ...] [-j N] [--suite]     (--suite also runs the pinned test
@@ -391,7 +392,14 @@ def t_docstrip(tree, src):
     return ast.unparse(tree)
 
 
-TRANSFORMS = {"unparse": t_unparse, "shift": t_shift, "rename": t_rename, "flipcmp": t_flipcmp, "augassign": t_augassign, "invertif": t_invertif, "noelse": t_noelse, "splitchain": t_splitchain, "retvar": t_retvar, "extractvar": t_extractvar, "docadd": t_docadd, "docstrip": t_docstrip}
+def t_combo(tree, src):
+    """several of the above applied one after the other to the same tree"""
+    for t in (t_rename, t_flipcmp, t_invertif, t_noelse, t_splitchain, t_extractvar, t_augassign, t_docadd):
+        src = t(ast.parse(src), src)
+    return src
+
+
+TRANSFORMS = {"unparse": t_unparse, "shift": t_shift, "rename": t_rename, "flipcmp": t_flipcmp, "augassign": t_augassign, "invertif": t_invertif, "noelse": t_noelse, "splitchain": t_splitchain, "retvar": t_retvar, "extractvar": t_extractvar, "docadd": t_docadd, "docstrip": t_docstrip, "combo": t_combo}
 
 
 # ------------------------------------------------------------------ driver
